@@ -3607,6 +3607,7 @@ namespace detail {
         const char_type* input_end_{nullptr};
         const char_type* p_{nullptr};
         std::vector<token<Json>> operator_stack_;
+        std::vector<std::size_t> lparen_positions_; // where in the output the tokens following each open lparen token begin
 
     public:
         jmespath_evaluator()
@@ -5400,6 +5401,38 @@ namespace detail {
                 case token_kind::rparen:
                     {
                         unwind_rparen(resources, output_stack, ec);
+                        if (JSONCONS_UNLIKELY(ec) || lparen_positions_.empty())
+                        {
+                            break;
+                        }
+                        std::size_t first = lparen_positions_.back();
+                        lparen_positions_.pop_back();
+                        // A pipe (written, or implied by a projection that the parenthesis closes) replaces the
+                        // current node for all tokens that follow it. Inside parentheses that must end at the
+                        // ")": the parenthesized tokens become one expression with a current node of its own.
+                        bool has_pipe = false;
+                        for (std::size_t i = first; i < output_stack.size(); ++i)
+                        {
+                            if (output_stack[i].type() == token_kind::pipe)
+                            {
+                                has_pipe = true;
+                                break;
+                            }
+                        }
+                        if (has_pipe)
+                        {
+                            std::vector<token<Json>> toks;
+                            if (output_stack[first].type() != token_kind::literal)
+                            {
+                                toks.emplace_back(current_node_arg); // as for every token list that does not start with a literal
+                            }
+                            for (std::size_t i = first; i < output_stack.size(); ++i)
+                            {
+                                toks.emplace_back(std::move(output_stack[i]));
+                            }
+                            output_stack.erase(output_stack.begin() + static_cast<std::ptrdiff_t>(first), output_stack.end());
+                            output_stack.push_back(resources.create_expression(function_expression(std::move(toks))));
+                        }
                         break;
                     }
                 case token_kind::end_function:
@@ -5565,9 +5598,14 @@ namespace detail {
                 }
                 case token_kind::argument:
                     unwind_rparen(resources, output_stack, ec);
+                    if (!lparen_positions_.empty())
+                    {
+                        lparen_positions_.pop_back();
+                    }
                     output_stack.push_back(std::move(tok));
                     break;
                 case token_kind::lparen:
+                    lparen_positions_.push_back(output_stack.size()); // popped by the matching rparen or (function call) argument
                     operator_stack_.emplace_back(std::move(tok));
                     break;
                 default:
